@@ -395,6 +395,12 @@ Plan gen_c10(uint64_t seed, uint64_t run, const std::string& cfg) {
   bool z = cfg.find('Z') != std::string::npos;
   int sz = (int)g.below(100);
   int maxpaths = sz < 60 ? 2 : (sz < 92 ? 4 : 8), maxpts = sz < 55 ? 6 : (sz < 88 ? 14 : (sz < 98 ? 40 : 100));
+  if (g.chance(0.08)) {                                          // phase C: faults inside object histories
+    Plan h = gen_c12(seed, run * 8 + 2 + g.below(6), cfg);
+    h.prop = "C10"; h.check_model = 0; h.run = run; h.env = pl.env;
+    if (h.ops.size() > 14) h.ops.resize(14);
+    return h;
+  }
   int kind = (int)(run % N_ENTRY_KINDS);                         // stratified: every entry class is visited
   int used = append_entry(g, pl, kind, 0, 0, cfg, z, maxpaths, maxpts, -1);
   if (g.chance(0.15)) append_entry(g, pl, (int)g.below(N_ENTRY_KINDS), 0, used, cfg, z, 2, 8, -1);   // short histories (phase C)
@@ -498,7 +504,7 @@ Plan gen_c12(uint64_t seed, uint64_t run, const std::string& cfg) {
     // clipper histories: one or two Clipper64 (or a ClipperD), up to two containers
     bool useD = mode == 4 && g.chance(0.6);
     int prec = (int)g.range(-2, 4);
-    int nclip = useD ? 1 : (int)g.range(1, 2), ncont = useD ? 0 : (int)g.range(0, 2);
+    int nclip = useD ? 1 : (int)g.range(1, 2), ncont = useD ? (int)g.range(0, 1) : (int)g.range(0, 2);
     for (int i = 0; i < nclip; ++i) { Op n = mkop(useD ? "new_cd" : "new_c64"); n.o = i; if (useD) n.i = {prec}; pl.ops.push_back(n); }
     for (int i = 0; i < ncont; ++i) { Op n = mkop("new_cont"); n.o = 4 + i; pl.ops.push_back(n); Op a = mkop("k_add"); a.o = 4 + i; a.i = {(int64_t)g.below(2), (int64_t)(g.chance(0.15) ? 1 : 0)}; setP(a, 0, P()); pl.ops.push_back(a); }
     int len = (int)g.range(3, 14);
